@@ -31,18 +31,33 @@ from ..simdev.uiadmin import (UiAdmin, MODE_BOOTLOADER, MODE_SIGNER, MODE_UI_HEA
 # 8 ASCII alphanumerics with at least one ASCII letter.
 PIN_KINDS = ["absent", "valid", "short7", "digits", "nonalnum", "long9",
              "uni-letters", "uni-digits", "uni-8chars"]
-PIN_VALUES = {"valid": "1234567a", "short7": "123456a", "digits": "12345678",
+PIN_VALUES = {"valid": "pa55word", "short7": "123456a", "digits": "12345678",
               "nonalnum": "1234567!", "long9": "1234567ab",
               "uni-letters": "abc123\u00ba", "uni-digits": "123456\u00ba", "uni-8chars": "abc1234\u00b5"}
-NEWPIN_VALUES = {"valid": "Abcd1234", "short7": "Abcd123", "digits": "87654321",
+NEWPIN_VALUES = {"valid": "a1b2c3a1", "short7": "Abcd123", "digits": "87654321",
                  "nonalnum": "Abcd123$", "long9": "Abcd12345",
                  "uni-letters": "Abcd12\u00b5", "uni-digits": "876543\u00b5", "uni-8chars": "Abcd123\u00ba"}
-GETPASS_MENU = [("valid", "gp1234Zz"), ("short7", "gp1234Z"), ("digits", "11223344"),
+# an otherwise valid PIN with ASCII whitespace around / inside it (9 bytes): not policy-compliant
+WS_KINDS = ["trail-blank", "lead-blank", "trail-nl", "trail-tab", "inner-blank"]
+WS_QUICK = ["trail-blank", "lead-blank"]      # getpass answers, quick tier
+WS_QUICK_OPT = ["trail-blank"]                 # --pin / --newpin, quick tier
+
+
+def ws_variant(valid, kind):
+    return {"trail-blank": valid + " ", "lead-blank": " " + valid, "trail-nl": valid + "\n",
+            "trail-tab": valid + "\t", "inner-blank": valid[:4] + " " + valid[4:]}[kind]
+
+
+GETPASS_MENU = [("valid", "Zz11gpZz"), ("short7", "gp1234Z"), ("digits", "11223344"),
                 ("nonalnum", "gp1234Z*"), ("long9", "gp1234Zz9"),
                 ("uni-letters", "gp1234\u00ba"), ("uni-digits", "112233\u00ba"),
                 ("uni-8chars", "gp1234Z\u00b5")]
+for _k in WS_KINDS:
+    PIN_VALUES[_k] = ws_variant(PIN_VALUES["valid"], _k)
+    NEWPIN_VALUES[_k] = ws_variant(NEWPIN_VALUES["valid"], _k)
+GETPASS_WS = [(k, ws_variant("Zz11gpZz", k)) for k in WS_KINDS]
 STDIN_MENU = ["yes\n", "YES\n", "no\n", "n\n", "maybe\n", "\n", "y\n"]
-STDIN_EXTRA = ["Yes\n", "Y\n", "NO\n", "yes \n", "ye\n", "\uff59\uff45\uff53\n", "yes\u00ba\n"]
+STDIN_EXTRA = ["Yes\n", "NO\n", "\uff59\uff45\uff53\n"]     # thorough: mixed case, full-width "yes" (not a yes)
 MODES = ["bootloader", "signer", "ui-heartbeat", "0xff", "undefined", "status-error"]
 NAMES = {"btc": "m/44'/0'/0'/0/0", "rsk": "m/44'/137'/0'/0/0", "mst": "m/44'/137'/1'/0/0",
          "tbtc": "m/44'/1'/0'/0/0", "trsk": "m/44'/1'/1'/0/0", "tmst": "m/44'/1'/2'/0/0"}
@@ -153,9 +168,11 @@ class LazyDev(UiAdmin):
 class Operator:
     """stdin and getpass chosen lazily; at most ``budget`` lines / answers each"""
 
-    def __init__(self, ctx, cfg, dev, world, stdin_menu, budget=3):
+    def __init__(self, ctx, cfg, dev, world, stdin_menu, getpass_menu, budget=3):
         self.ctx, self.cfg, self.dev, self.world = ctx, cfg, dev, world
         self.stdin_menu = stdin_menu
+        self.getpass_menu = getpass_menu
+        self.forced_used = False
         self.budget = budget
         self.lines = []          # (value, exchanges so far)
         self.passes = []         # (kind, value, exchanges so far)
@@ -201,12 +218,19 @@ class Operator:
         if len(self.passes) >= self.budget:
             self.gone = "getpass"
             raise opstub.OperatorGone("getpass")
-        self.state("getpass")
-        c = self.ctx.choose(len(GETPASS_MENU) + 1, "getpass")
-        if c == len(GETPASS_MENU):
+        forced = self.cfg.get("first_getpass")
+        if forced is not None and not self.passes and not self.forced_used:
+            # sharding of the heaviest trees: this case explores the subtree below one fixed
+            # first answer (the sibling cases cover the other answers)
+            self.forced_used = True
+            c = forced
+        else:
+            self.state("getpass")
+            c = self.ctx.choose(len(self.getpass_menu) + 1, "getpass")
+        if c == len(self.getpass_menu):
             self.gone = "getpass"
             raise opstub.OperatorGone("getpass")
-        k, v = GETPASS_MENU[c]
+        k, v = self.getpass_menu[c]
         self.passes.append((k, v, self.world.seq))
         return v
 
@@ -218,8 +242,8 @@ class C18(Check):
             "echo x2, unlock x2, new PIN x2, onboarding answer x2} and operator inputs {stdin lines "
             "<= 3 over 7 answers + walk away, getpass answers <= 3 over 5 PIN kinds + walk away, "
             "Enter with / without re-plugging} for every static configuration {onboard, unlock, "
-            "changepin, pubkeys} x {Ledger, SGX} x --pin x9 x --newpin x9 x --anypin x --nounlock x "
-            "--noexec x output x 2 randomness streams (flags a command does not read are enumerated "
+            "changepin, pubkeys} x {Ledger, SGX} x --pin x10 x --newpin x10 (thorough x14) x --anypin x --nounlock x "
+            "--noexec x output x 2 randomness streams (quick: second stream with --pin valid only) (flags a command does not read are enumerated "
             "in the thorough tier), driven through adm_ledger.main / adm_sgx.main.  A state is "
             "(configuration, device state, chosen dimensions, operator progress) at a choice point; "
             "distinct outcome = (command, platform, exit, APDU command shape, files, end state).")
@@ -260,6 +284,9 @@ class C18(Check):
             raise HarnessError("the two randomness streams coincide")
         self.modes = MODES + (["status-error-generic"] if self.thorough else [])
         self.stdin_menu = STDIN_MENU + (STDIN_EXTRA if self.thorough else [])
+        ws = WS_KINDS if self.thorough else WS_QUICK
+        self.getpass_menu = GETPASS_MENU + [e for e in GETPASS_WS if e[0] in ws]
+        self.pin_kinds = PIN_KINDS + (WS_KINDS if self.thorough else WS_QUICK_OPT)
         self.td = None
 
     def bounds(self):
@@ -270,7 +297,8 @@ class C18(Check):
         return {"mode": self.modes, "onboarded": ["yes", "no", "error"], "echo": ["ok", "bad"],
                 "unlock": ["ok", "refused"], "newpin": ["ok", "refused"],
                 "onboarding": ["ok", "failure"], "stdin": self.stdin_menu + ["<walk away>"],
-                "getpass": [k for k, _ in GETPASS_MENU] + ["<walk away>"], "pin_option": PIN_KINDS}
+                "getpass": [k for k, _ in self.getpass_menu] + ["<walk away>"],
+                "pin_option": self.pin_kinds}
 
     def cases(self):
         cs = []
@@ -281,15 +309,24 @@ class C18(Check):
         T = self.thorough
         for plat in ("ledger", "sgx"):
             ne_all = (False, True) if plat == "ledger" else (False,)
-            for pin in PIN_KINDS:
+            for pin in self.pin_kinds:
                 for anypin in (False, True):
                     # onboard
                     for out in (True, False):
-                        for stream in ("a", "b"):
-                            for ne in (ne_all if T else (False,)):
-                                for nu in ((False, True) if T else (False,)):
-                                    add(cmd="onboard", platform=plat, pin=pin, newpin="absent",
-                                        anypin=anypin, nounlock=nu, noexec=ne, output=out, stream=stream)
+                        # second randomness stream: everywhere in thorough; in quick where the
+                        # PIN comes from the command line (the seed does not depend on the dialogue)
+                        for stream in (("a", "b") if T or pin == "valid" else ("a",)):
+                            # flags onboard does not read: thorough, and only where the tree is small
+                            T2 = T and pin != "absent"
+                            for ne in (ne_all if T2 else (False,)):
+                                for nu in ((False, True) if T2 else (False,)):
+                                    # interactive onboarding (stdin x getpass sequences) has the largest trees: shard
+                                    # its tree by the first getpass answer
+                                    heavy = pin == "absent" and (plat == "sgx" or out)
+                                    for g in (range(len(self.getpass_menu) + 1) if heavy else (None,)):
+                                        add(cmd="onboard", platform=plat, pin=pin, newpin="absent",
+                                            anypin=anypin, nounlock=nu, noexec=ne, output=out,
+                                            stream=stream, first_getpass=g)
                     # unlock
                     for ne in ne_all:
                         for out in ((False, True) if T else (False,)):
@@ -297,7 +334,7 @@ class C18(Check):
                                 add(cmd="unlock", platform=plat, pin=pin, newpin="absent", anypin=anypin,
                                     nounlock=nu, noexec=ne, output=out, stream="a")
                     # changepin
-                    for newpin in PIN_KINDS:
+                    for newpin in self.pin_kinds:
                         for nu in (False, True):
                             for ne in (ne_all if T else (False,)):
                                 add(cmd="changepin", platform=plat, pin=pin, newpin=newpin,
@@ -343,7 +380,7 @@ class C18(Check):
             td.write("out.json", STALE_JSON)
         dev = LazyDev(ctx, cfg, self.modes)
         w = World(dev)
-        op = Operator(ctx, cfg, dev, w, self.stdin_menu)
+        op = Operator(ctx, cfg, dev, w, self.stdin_menu, self.getpass_menu)
         dev.operator = op
         seed_stream = opstub.ByteStream("c18-seed-" + cfg["stream"])
         misc_stream = opstub.ByteStream("c18-misc")
